@@ -104,10 +104,16 @@ theorem memDisp_decoded (rb7 rel s : BitVec 32) (hs : s ≤ 6#32) :
 /-! ### `EmitVexEvexM` on a `[base64 + disp]` operand -/
 
 /-- model-side `[base64 + disp]` operand -/
-def memBase (size : Nat) (rb : BitVec 32) (d : BitVec 64) (seg : Nat := 0) : Mem :=
-  { size := size, baseType := 6, baseId := rb.toNat, indexType := 0, indexId := 0, shift := 0, offset := d, seg := seg, bcst := 0, addrType := 0 }
+def memBase (size : Nat) (rb : BitVec 32) (d : BitVec 64) (seg : Nat := 0) (a32 : Bool := false) : Mem :=
+  { size := size, baseType := (if a32 then 5 else 6), baseId := rb.toNat, indexType := 0, indexId := 0, shift := 0, offset := d, seg := seg, bcst := 0, addrType := 0 }
 
 theorem memInfo_gp64 : memInfo 6 0 = 0x0D#32 := by decide
+theorem memInfo_gp32 : memInfo 5 0 = 0x8D#32 := by decide
+
+/-- the address-size prefix of 32-bit address registers in 64-bit mode -/
+def aoBytes (a32 : Bool) : List (BitVec 8) := if a32 then [0x67#8] else []
+/-- `rm_info` of a base-only operand -/
+def rmInfoBase (a32 : Bool) : BitVec 32 := if a32 then 0x8D#32 else 0x0D#32
 
 /-- the prefix word `x` of `EmitVexEvexM` for a base-only operand (no index, no broadcast, no {k}) -/
 def xMb (opcode reg vvvvv rb : BitVec 32) : BitVec 32 :=
@@ -117,22 +123,31 @@ theorem xMb_eq_xR (opcode reg vvvvv rb : BitVec 32) (hb : rb < 16#32) : xMb opco
   simp only [xMb, xR]; bv_decide
 
 /-- `EmitVexEvexM` = prefix part, then `EmitModSib` with the (adjusted) opcode word -/
-theorem emitVexEvexM_base_eq (c : Model.X86.Ctx) (opcode reg vvvvv rb : BitVec 32) (size : Nat) (d imm : BitVec 64) (n : Nat) (seg : Nat)
+theorem emitVexEvexM_base_eq (c : Model.X86.Ctx) (opcode reg vvvvv rb : BitVec 32) (size : Nat) (d imm : BitVec 64) (n : Nat) (seg : Nat) (a32 : Bool)
     (hm : c.mode64 = true) (hpe : c.preferEvex = false) (hk : c.extraId = 0#32) (hvs : c.vsib = false) :
-    emitVexEvexM c opcode 0#32 (reg + (vvvvv <<< 7)) (memBase size rb d seg) imm n =
-      (match vexEvexMPrefix c (if c.vexFlag then xMb opcode reg vvvvv rb else xMb opcode reg vvvvv rb ||| 0x80000000#32) opcode 0#32 (memBase size rb d seg) with
+    emitVexEvexM c opcode 0#32 (reg + (vvvvv <<< 7)) (memBase size rb d seg a32) imm n =
+      (match vexEvexMPrefix c (if c.vexFlag then xMb opcode reg vvvvv rb else xMb opcode reg vvvvv rb ||| 0x80000000#32) opcode 0#32 (memBase size rb d seg a32) with
        | .error e => .error e
-       | .ok v => emitModSib c (segmentPrefix seg ++ v.1) (segmentPrefix seg).length v.2 0#32 ((reg + (vvvvv <<< 7)) &&& 7#32) rb 0#32 0x0D#32
-                    (memBase size rb d seg) imm n false) := by
+       | .ok v => emitModSib c (segmentPrefix seg ++ aoBytes a32 ++ v.1) (segmentPrefix seg).length v.2 0#32 ((reg + (vvvvv <<< 7)) &&& 7#32) rb 0#32
+                    (rmInfoBase a32) (memBase size rb d seg a32) imm n false) := by
   unfold emitVexEvexM
-  simp only [memBase, xMb]
-  simp only [rtLabel, hk, hpe, hvs, memInfo_gp64, Model.X86.Ctx.aoMask, hm, oZMask, oER, oSAE, oVex, oVex3]
-  simp only [BitVec.ofNat_toNat, BitVec.setWidth_eq, BitVec.zero_and, BitVec.zero_or, BitVec.or_zero, bne_self_eq_false, Bool.false_eq_true, ↓reduceIte,
-    Bool.false_and, gt_iff_lt, Nat.lt_irrefl, Nat.not_lt_zero, BitVec.zero_shiftLeft, BitVec.and_zero, bind, Except.bind, Bool.not_false,
-    show (1 < 6) = True from by decide, show (0x0D#32 &&& 0x80#32 != 0#32) = false from by decide, List.nil_append, List.length_nil, List.append_nil,
-    show ((0:Nat) != 0) = false from by decide]
-  generalize vexEvexMPrefix c _ opcode 0#32 _ = r
-  cases r <;> rfl
+  cases a32
+  · simp only [memBase, xMb, aoBytes, rmInfoBase, Bool.false_eq_true, ↓reduceIte]
+    simp only [rtLabel, hk, hpe, hvs, memInfo_gp64, Model.X86.Ctx.aoMask, hm, oZMask, oER, oSAE, oVex, oVex3]
+    simp only [BitVec.ofNat_toNat, BitVec.setWidth_eq, BitVec.zero_and, BitVec.zero_or, BitVec.or_zero, bne_self_eq_false, Bool.false_eq_true, ↓reduceIte,
+      Bool.false_and, gt_iff_lt, Nat.lt_irrefl, Nat.not_lt_zero, BitVec.zero_shiftLeft, BitVec.and_zero, bind, Except.bind, Bool.not_false,
+      show (1 < 6) = True from by decide, show (0x0D#32 &&& 0x80#32 != 0#32) = false from by decide, List.nil_append, List.length_nil, List.append_nil,
+      show ((0:Nat) != 0) = false from by decide]
+    generalize vexEvexMPrefix c _ opcode 0#32 _ = r
+    cases r <;> rfl
+  · simp only [memBase, xMb, aoBytes, rmInfoBase, ↓reduceIte]
+    simp only [rtLabel, hk, hpe, hvs, memInfo_gp32, Model.X86.Ctx.aoMask, hm, oZMask, oER, oSAE, oVex, oVex3]
+    simp only [BitVec.ofNat_toNat, BitVec.setWidth_eq, BitVec.zero_and, BitVec.zero_or, BitVec.or_zero, bne_self_eq_false, Bool.false_eq_true, ↓reduceIte,
+      Bool.false_and, gt_iff_lt, Nat.lt_irrefl, Nat.not_lt_zero, BitVec.zero_shiftLeft, BitVec.and_zero, bind, Except.bind, Bool.not_false,
+      show (1 < 5) = True from by decide, show (0x8D#32 &&& 0x80#32 != 0#32) = true from by decide, List.nil_append, List.length_nil, List.append_nil,
+      show ((0:Nat) != 0) = false from by decide]
+    generalize vexEvexMPrefix c _ opcode 0#32 _ = r
+    cases r <;> rfl
 
 theorem cdisp8Shl_low (t : BitVec 32) : ∃ v : BitVec 32, cdisp8Shl t = v <<< 13 := ⟨_, rfl⟩
 
@@ -164,8 +179,8 @@ theorem vexEvexMPrefix_nobcst (c : Model.X86.Ctx) (x opcode : BitVec 32) (m : Me
 
 
 /-- spec-side `[base64 + disp]` operand -/
-def memOpBase (size : Nat) (rb : BitVec 32) (d : BitVec 64) (seg : Nat := 0) : MemOp :=
-  { size := size, baseKind := .gpq, baseId := rb.toNat, indexKind := .none, indexId := 0, shift := 0, disp := d, seg := seg, bcst := 0, addrType := 0 }
+def memOpBase (size : Nat) (rb : BitVec 32) (d : BitVec 64) (seg : Nat := 0) (a32 : Bool := false) : MemOp :=
+  { size := size, baseKind := (if a32 then .gpd else .gpq), baseId := rb.toNat, indexKind := .none, indexId := 0, shift := 0, disp := d, seg := seg, bcst := 0, addrType := 0 }
 
 /-- the opcode word after the EVEX compressed-displacement adjustment of `EmitVexEvexM` (no broadcast) -/
 def evexCdOpcode (opcode xw : BitVec 32) : BitVec 32 :=
